@@ -27,10 +27,16 @@ TWINS = [("length", "length"), ("revindex0", "revindex0"), ("revindex", "revinde
 
 def check(ctx: Ctx) -> str:
     ctx.use("runtime", "compiler", "async_utils")
+    loop_twins(ctx, "R1")
+    rest(ctx)
+    return __doc__ or ""
+
+
+def loop_twins(ctx: Ctx, rid: str) -> None:
     repo = ctx.repo
     lc = repo.cls("runtime:LoopContext")
     ac = repo.cls("runtime:AsyncLoopContext")
-    ctx.rule("R1", "AsyncLoopContext members are LoopContext's members under erasure of await / async / __anext__ / auto_aiter")
+    ctx.rule(rid, "AsyncLoopContext members are LoopContext's members under erasure of await / async / __anext__ / auto_aiter")
     for s, a in TWINS:
         sf, af = lc.methods.get(s), ac.methods.get(a)
         ctx.need(sf is not None and af is not None, f"twin {s}/{a} vanished")
@@ -44,6 +50,11 @@ def check(ctx: Ctx) -> str:
     si = lc.methods.get("_to_iterator")
     ctx.check(si is not None and "iter(iterable)" in ast.unparse(si), "sync:_to_iterator", "runtime:LoopContext._to_iterator", "iterator source", "LoopContext must iterate through iter(iterable)", lc.loc())
 
+
+def rest(ctx: Ctx) -> None:
+    repo = ctx.repo
+    lc = repo.cls("runtime:LoopContext")
+    ac = repo.cls("runtime:AsyncLoopContext")
     ctx.rule("R5", "index arithmetic as linear forms")
     forms = {
         "index": {"self.index0": 1, "": 1}, "depth": {"self.depth0": 1, "": 1},
@@ -125,4 +136,3 @@ def check(ctx: Ctx) -> str:
                     ok = f"{ind} = 1" in txt and txt.index(f"{ind} = 1") < txt.index("_loop_vars = {}") and f"if {ind}:" in txt and txt.index(f"if {ind}:") > txt.index(f"{ind} = 0")
             ctx.check(ok, f"else-indicator:{n}", "compiler:CodeGenerator.visit_For", "else indicator protocol", f"for-else: the iteration indicator must be set to 1 before the loop, to 0 as the last statement of the loop body, and tested after the loop:\n{sk.text[:400]}", "src/jinja2/compiler.py")
     ctx.floor("visit_For skeletons", n, 100)
-    return __doc__ or ""
